@@ -1,6 +1,7 @@
 package main
 
 import (
+	"runtime"
 	"context"
 	"crypto/tls"
 	"errors"
@@ -187,6 +188,9 @@ type Result struct {
 	Closes  int
 	UserMap string // rendering of the user's global parameter map after the run
 	MultiOut, MultiEv string // multi-connection cases: per-connection renderings joined by "/"
+	Alloc   int64  // bytes allocated (runtime TotalAlloc) while the connection was served; -1: not measured
+	Fin     string // "1": the server closed the connection after the client hung up; "0": it did not
+	By      string // bystander connection: ok | bad:<what> | "" (none)
 }
 
 var discardLogger = slog.New(slog.NewTextHandler(io.Discard, nil))
@@ -274,6 +278,41 @@ func (s *session) checkRetained() string {
 	return "ok"
 }
 
+// bystander opens a second, well-behaved connection on the same server while the case's own
+// connection is still open, and reports whether it was served: authentication, one query with
+// one row, ReadyForQuery.
+func bystander(c *Case, l *Listener) string {
+	in := plainStartup("bystander")
+	if c.Auth {
+		in = append(in, msgPassword("ok")...)
+	}
+	in = append(in, msgQuery("t//r:t6869;c:"+hxs("SELECT 1")+"/ok")...)
+	b := NewConn(segments(in, nil), false, -1)
+	b.name = "bystander"
+	l.ch <- b
+	closed, ok := b.WaitQuiescent(20 * time.Second)
+	defer b.Hangup()
+	if !ok {
+		return "bad:hang"
+	}
+	if closed {
+		return "bad:closed"
+	}
+	b.mu.Lock()
+	defer b.mu.Unlock()
+	var types []byte
+	for _, w := range b.writes {
+		if len(w) > 0 {
+			types = append(types, w[0])
+		}
+	}
+	t := string(types)
+	if !strings.HasSuffix(t, "ZTDCZ") {
+		return "bad:" + t
+	}
+	return "ok"
+}
+
 // RunCase drives the real server with one case over the in-memory transport.
 func RunCase(c *Case) *Result {
 	if d, ok := c.Extra["direct"]; ok {
@@ -296,9 +335,19 @@ func RunCase(c *Case) *Result {
 	l := NewListener()
 	served := make(chan error, 1)
 	go func() { served <- srv.Serve(l) }()
+	r := &Result{Alloc: -1}
+	var m0 runtime.MemStats
+	if c.Extra["alloc"] == "1" {
+		runtime.GC()
+		runtime.ReadMemStats(&m0)
+	}
 	l.ch <- conn
 	closed, ok := conn.WaitQuiescent(20 * time.Second)
-	r := &Result{}
+	if c.Extra["alloc"] == "1" {
+		var m1 runtime.MemStats
+		runtime.ReadMemStats(&m1)
+		r.Alloc = int64(m1.TotalAlloc - m0.TotalAlloc)
+	}
 	switch {
 	case !ok:
 		r.End = "hang"
@@ -312,6 +361,10 @@ func RunCase(c *Case) *Result {
 	r.At = append(r.At, conn.wat...)
 	conn.mu.Unlock()
 	r.Ev = s.log.snapshot()
+	if c.Extra["by"] == "1" {
+		// the case's own connection is still open (blocked in a read, or already closed by the server)
+		r.By = bystander(c, l)
+	}
 	// let the connection goroutine finish, then shut the server down
 	conn.Hangup()
 	deadline := time.Now().Add(20 * time.Second)
@@ -324,6 +377,12 @@ func RunCase(c *Case) *Result {
 		}
 		time.Sleep(20 * time.Microsecond)
 	}
+	conn.mu.Lock()
+	r.Fin = "0"
+	if conn.closed {
+		r.Fin = "1"
+	}
+	conn.mu.Unlock()
 	srv.Close()
 	<-served
 	conn.mu.Lock()
@@ -404,6 +463,16 @@ func (r *Result) Line() string {
 	if r.MultiOut != "" || r.MultiEv != "" {
 		return fmt.Sprintf("out=%s ev=%s end=%s at= dn= retain=%s closes=0 umap=%s", r.MultiOut, r.MultiEv, r.End, r.Retain, r.UserMap)
 	}
-	return fmt.Sprintf("out=%s ev=%s end=%s at=%s dn=%s retain=%s closes=%d umap=%s",
-		canonOut(r.Out), strings.Join(r.Ev, ";"), r.End, strings.Join(at, ","), strings.Join(dn, ""), r.Retain, r.Closes, r.UserMap)
+	extra := ""
+	if r.Alloc >= 0 {
+		extra += fmt.Sprintf(" alloc=%d", r.Alloc)
+	}
+	if r.Fin != "" {
+		extra += " fin=" + r.Fin
+	}
+	if r.By != "" {
+		extra += " by=" + r.By
+	}
+	return fmt.Sprintf("out=%s ev=%s end=%s at=%s dn=%s retain=%s closes=%d umap=%s%s",
+		canonOut(r.Out), strings.Join(r.Ev, ";"), r.End, strings.Join(at, ","), strings.Join(dn, ""), r.Retain, r.Closes, r.UserMap, extra)
 }
